@@ -1,0 +1,10 @@
+//go:build verif
+
+package base
+
+// Verification hook (add-only, compiled with -tags verif only).
+
+// VerifX11Subscribers returns the column subscribers in notification order.
+func (o *ColumnDecryptionObserver) VerifX11Subscribers() []DecryptionSubscriber {
+	return append([]DecryptionSubscriber{}, o.allColumns...)
+}
